@@ -553,6 +553,7 @@ class Oracle:
         R = self.R
         self.pre_lists = [list(list.__iter__(o)) for o in R.objs]
         self.pre_lats = [o.lattice if isinstance(o, R.Structure) else None for o in R.objs]
+        self.pre_atom_lats = [[a.lattice for a in l] for l in self.pre_lists]
         self.pre_atom_ids = {id(a) for l in self.pre_lists for a in l}
         # keep every pre-existing atom and lattice object alive beyond the call: an operation may drop the
         # last reference to a lattice and a new object could then reuse its id()
@@ -818,13 +819,21 @@ class Oracle:
             if i != target or raised:
                 if [id(x) for x in b] != [id(x) for x in a]:
                     out.append(("frame:%s" % name, "%s changed the items of object %d" % (op_text(op), i), None))
+        # a failed operation leaves every pre-existing atom's lattice reference alone (since fix/c0816b also a failed
+        # non-copying __setitem__: the store comes first, the re-link only after it succeeded)
+        if raised:
+            for l, lats in zip(self.pre_lists, self.pre_atom_lats):
+                for a, L0 in zip(l, lats):
+                    if a.lattice is not L0:
+                        out.append(("failed-op-relinked:%s" % name, "%s raised %s but atom %r now refers to another lattice" % (
+                            op_text(op), outcome[1], str(a.label)), None))
+                        break
         # (2) every atom of a Structure refers to that structure's lattice
         structs = [(i, o) for i, o in enumerate(R.objs) if isinstance(o, R.Structure)]
         holders = {}
         for i, o in structs:
             for a in post_lists[i]:
                 holders.setdefault(id(a), []).append(i)
-        noncopy_failed = raised and name in ("SetInt", "SetSlice") and not op[-1]
         for i, o in structs:
             for a in post_lists[i]:
                 if a.lattice is not o.lattice:
@@ -840,8 +849,6 @@ class Oracle:
                     excuse = None
                     if shared:
                         excuse = (0, "D10:shared:%s" % name)
-                    elif noncopy_failed:
-                        excuse = (0, "D10:failed-noncopy:%s" % name)
                     key = "lattice:%s:%s" % (name, "none" if a.lattice is None else "other")
                     out.append((key, "after %s atom %r of object %d refers to %s" % (
                         op_text(op), str(a.label), i, "no lattice" if a.lattice is None else "a lattice that is not the container's"), excuse))
